@@ -1,2 +1,3 @@
 pub mod c04;
 pub mod c15;
+pub mod c08;
